@@ -182,9 +182,12 @@ def native_sweep(run, n):
         # every fourth history lives around t = 5000 s / 86400 s (times of moderate magnitude well above 1 s)
         base = (0.0, 0.0, 0.0, 5000.0, 0.0, 0.0, 0.0, 86400.0)[k % 8]
         t0 = base + round(rng.uniform(-1, 1), 2)
+        # at the large bases some times sit a few microseconds off the step grid (a whole number of steps plus 3e-6 s): a tolerance that
+        # grows with the absolute time drops exactly these remainders
+        off = (lambda: rng.choice([0.0, 3e-6, -4e-7, 1.5e-8])) if base else (lambda: 0.0)
         ticks = []
         for _ in range(rng.randint(1, 4)):
-            t_out = base + round(rng.uniform(-1.5, 1.5), 3)
+            t_out = (t0 + rng.randint(-6, 6) * mx + off()) if (base and rng.random() < 0.5) else base + round(rng.uniform(-1.5, 1.5), 3)
             control = "u" if (cs or rng.random() < 0.5) else None
             if rng.random() < 0.15 and cs:
                 control = None
@@ -192,7 +195,7 @@ def native_sweep(run, n):
             if mode < 0.2:
                 rs = None
             else:
-                rs = [(base + round(rng.uniform(-1.5, 1.5), 3), rng.choice(["a", "b"]), rng.random() < 0.5) for _ in range(rng.randint(0, 3))]
+                rs = [((t0 + rng.randint(-6, 6) * mx + off()) if (base and rng.random() < 0.5) else base + round(rng.uniform(-1.5, 1.5), 3), rng.choice(["a", "b"]), rng.random() < 0.5) for _ in range(rng.randint(0, 3))]
             ticks.append((t_out, control, rs))
         run.native_runs += 1
         ok, why, calls = native_tick(t0, mx, cs, ticks)
